@@ -123,7 +123,7 @@ def _inv(x, k):
       sym.forall([j_], z3.Implies(z3.And(w[p_] < j_, j_ < k),
                                   z3.Not(bound_at(x, _P(x, j_), p_))),
                  patterns=[bound_at(x, _P(x, j_), p_)])),
-      patterns=[w[p_], nk.dom[p_]])
+      patterns=[w[p_], nk.dom[p_], nk.val[p_]])
 
 
 def _ghost_step(ex, x, k):
